@@ -139,6 +139,15 @@ package smtp
 //@   requires connInv(c) && !c.closed
 //@   modifies c.helo, c.session, c.bdatPipe, c.bdatStatus, c.bytesReceived, c.fromReceived, c.recipients, c.replies, c.finals, c.lastCode, c.cbNew, c.cbReset, c.bdatPipe.state
 //@   before Backend.NewSession: @C03 greeting-name-visible: c.helo == domain && domain != ""
+//@   before (*Conn).writeResponse: @C12 helo-lists-no-extension: $1 == 250 && !enhanced ==> advOnly($3, "fmt:Hello %s")
+//@   before (*Conn).writeResponse: @C12 always-advertised: $1 == 250 && enhanced ==> adv($3, "PIPELINING") && adv($3, "8BITMIME") && adv($3, "ENHANCEDSTATUSCODES") && adv($3, "CHUNKING") && adv($3, "pre:Hello ")
+//@   before (*Conn).writeResponse: @C12 starttls-only-before-tls: $1 == 250 && enhanced ==> (adv($3, "STARTTLS") <==> c.server.TLSConfig != nil && !isTLS(c))
+//@   before (*Conn).writeResponse: @C12,C09 auth-only-where-permitted: $1 == 250 && enhanced ==> (adv($3, "var:authCap") <==> authAllowedSpec(c) && istype(c.session, "AuthSession") && mechCount(c.session) > 0)
+//@   before (*Conn).writeResponse: @C12 requiretls-only-under-tls: $1 == 250 && enhanced ==> (adv($3, "REQUIRETLS") <==> isTLS(c) && c.server.EnableREQUIRETLS)
+//@   before (*Conn).writeResponse: @C12 flags: $1 == 250 && enhanced ==> (adv($3, "SMTPUTF8") <==> c.server.EnableSMTPUTF8) && (adv($3, "BINARYMIME") <==> c.server.EnableBINARYMIME) && (adv($3, "DSN") <==> c.server.EnableDSN) && (adv($3, "RRVS") <==> c.server.EnableRRVS)
+//@   before (*Conn).writeResponse: @C12 size-and-rcptmax: $1 == 250 && enhanced ==> (adv($3, "fmt:SIZE %v") <==> c.server.MaxMessageBytes > 0) && (adv($3, "SIZE") <==> c.server.MaxMessageBytes <= 0) && (adv($3, "fmt:LIMITS RCPTMAX=%v") <==> c.server.MaxRecipients > 0)
+//@   before (*Conn).writeResponse: @C12 nothing-else-advertised: $1 == 250 && enhanced ==> advOnly($3, "pre:Hello |PIPELINING|8BITMIME|ENHANCEDSTATUSCODES|CHUNKING|STARTTLS|var:authCap|SMTPUTF8|REQUIRETLS|BINARYMIME|DSN|RRVS|SIZE|fmt:SIZE %v|fmt:LIMITS RCPTMAX=%v")
+//@   before fmt.Sprintf: @C12 configured-values-advertised: ($0 == "SIZE %v" ==> asref($1[0]) == c.server.MaxMessageBytes) && ($0 == "LIMITS RCPTMAX=%v" ==> asref($1[0]) == c.server.MaxRecipients)
 //@   ensures inv: connInv(c) && !c.closed
 //@   ensures @C04 one-reply: c.replies == old(c.replies) + 1 && c.finals == old(c.finals) + 1
 //@   ensures @C03 regreeting-ends-transaction: old(c.session) != nil && c.helo != old(c.helo) ==> !c.fromReceived && len(c.recipients) == 0 && c.bdatPipe == nil
@@ -161,6 +170,7 @@ package smtp
 //@   ensures @C03 at-most-one-callback: c.cbMail == old(c.cbMail) || c.cbMail == old(c.cbMail) + 1
 //@   ensures @C03 accepted-only-by-backend: c.fromReceived && !old(c.fromReceived) ==> c.cbMail == old(c.cbMail) + 1 && c.lastCode == 250
 //@   ensures @C03 refused-without-callback-is-5xx: c.cbMail == old(c.cbMail) ==> c.lastCode >= 500 && c.lastCode <= 599
+//@   before (*Conn).writeResponse: @C12 refused-504-only-if-disabled: $1 == 504 ==> (key == "SMTPUTF8" && !c.server.EnableSMTPUTF8) || (key == "REQUIRETLS" && !c.server.EnableREQUIRETLS) || (key == "BODY" && !c.server.EnableBINARYMIME) || ((key == "RET" || key == "ENVID") && !c.server.EnableDSN)
 //@   loop 1:
 //@     invariant opts != nil && !old(alloc(opts))
 //@     invariant c.replies == old(c.replies) && c.cbMail == old(c.cbMail) && c.fromReceived == old(c.fromReceived)
@@ -178,6 +188,7 @@ package smtp
 //@   ensures @C03 accepted-only-by-backend: len(c.recipients) != len(old(c.recipients)) ==> len(c.recipients) == len(old(c.recipients)) + 1 && c.cbRcpt == old(c.cbRcpt) + 1 && c.lastCode == 250
 //@   ensures @C03 limit-refused-without-callback: c.server.MaxRecipients > 0 && len(old(c.recipients)) >= c.server.MaxRecipients ==> c.cbRcpt == old(c.cbRcpt)
 //@   ensures @C03 refused-without-callback-is-4xx-5xx: c.cbRcpt == old(c.cbRcpt) ==> c.lastCode >= 400 && c.lastCode <= 599
+//@   before (*Conn).writeResponse: @C12 refused-504-only-if-disabled: $1 == 504 ==> ((key == "NOTIFY" || key == "ORCPT") && !c.server.EnableDSN) || (key == "RRVS" && !c.server.EnableRRVS)
 //@   loop 1:
 //@     invariant opts != nil && !old(alloc(opts))
 //@     invariant c.replies == old(c.replies) && c.cbRcpt == old(c.cbRcpt)
@@ -315,6 +326,8 @@ package smtp
 //@   requires c.lineLimitReader.LineLimit == c.server.MaxLineLength
 //@   modifies c.bdatPipe, c.bdatStatus, c.dataResult, c.bytesReceived, c.fromReceived, c.recipients, c.replies, c.finals, c.lastCode, c.cbReset, c.closed, c.session, c.cbLogout, c.bdatPipe.state, c.bdatPipe.written, c.session.loggedOut, c.text.R.pos, c.text.R.iofail, c.text.R.unreadable, c.lineLimitReader.LineLimit, *chan
 //@   onrecv errOK($v)
+//@   recv 1: @C04 result-of-this-transfer: $ch == c.dataResult
+//@   recv 2: @C13 status-of-the-recipient-being-answered: $ch == c.bdatStatus.status[rangeindex + 1]
 //@   before (*io.PipeWriter).Close: @C07,C05 clean-eof-only-after-complete-last-chunk: last && lrOf(chunk).N == 0
 //@   ensures inv: connInv(c)
 //@   ensures @C19,C05 line-limit-restored: c.lineLimitReader.LineLimit == c.server.MaxLineLength && c.lineLimitReader == old(c.lineLimitReader)
@@ -366,6 +379,7 @@ package smtp
 //@   loop 1:
 //@     invariant connInv(c) && c.server == s && s.conns != nil && !s.LMTP && s.ErrorLog != nil
 //@     invariant @C19 line-limit-active: c.lineLimitReader.LineLimit == s.MaxLineLength
+//@     backedge @C19,C08 loop-ends-when-reading-fails: resultof("(*Conn).readLine", 1, 2) == nil
 //@     invariant @C08 no-session-lost: c.cbNew - c.cbLogout == (c.session != nil ? 1 : 0)
 
 // ---------------------------------------------------------------------------------------
@@ -387,6 +401,7 @@ package smtp
 //@   modifies c.replies, c.finals, c.lastCode, c.cbData, c.text.R.pos, c.text.R.iofail, c.text.R.unreadable, c.closed, c.session, c.cbLogout, c.session.loggedOut, c.bdatPipe, c.bdatPipe.state, *chan
 //@   join done: (*Conn).handleDataLMTP$1
 //@   onrecv errOK($v)
+//@   recv 1: @C13 status-of-the-recipient-being-answered: $ch == status.status[rangeindex + 1]
 //@   ensures inv: connInv(c)
 //@   ensures @C02 resync: dS(c.text.R.in, old(c.text.R.pos), c.text.R.pos) == 5 || c.text.R.iofail || c.closed
 //@   ensures @C13,C04 one-final-reply-per-accepted-recipient: c.replies == old(c.replies) + len(c.recipients) && c.finals == old(c.finals) + len(c.recipients)
